@@ -4,9 +4,12 @@
 package rhprenter
 
 import (
+	"bytes"
 	"context"
 	"errors"
 	"fmt"
+	"io"
+	"reflect"
 	"sync"
 	"time"
 
@@ -113,7 +116,20 @@ func faultHook(muts []mutation, donor *recorded, custom customMut, ap *applied) 
 		act := rhpmitm.Forward
 		var orig []byte
 		touched := false
+		// object-level mutations first, wire-level ones last, so that the wire
+		// override carries every object-level change
+		ordered := make([]mutation, 0, len(muts))
 		for _, mu := range muts {
+			if !isWireOp(mu.Op) {
+				ordered = append(ordered, mu)
+			}
+		}
+		for _, mu := range muts {
+			if isWireOp(mu.Op) {
+				ordered = append(ordered, mu)
+			}
+		}
+		for _, mu := range ordered {
 			if dirOf(mu.Dir) != m.Dir || mu.Msg != m.Index {
 				continue
 			}
@@ -161,13 +177,54 @@ func faultHook(muts []mutation, donor *recorded, custom customMut, ap *applied) 
 			}
 		}
 		if act == rhpmitm.Forward || act == rhpmitm.ForwardThenCut {
-			ap.seen.put(m)
+			if m.Wire != nil {
+				// what the receiver can decode from the overridden wire image
+				if dm := decodeWire(m); dm != nil {
+					ap.seen.put(dm)
+				}
+			} else {
+				ap.seen.put(m)
+			}
 		}
 		if ap.extraFun != nil {
 			ap.extraFun(m)
 		}
 		return act
 	}
+}
+
+func isWireOp(op string) bool { return op == "trunc-wire" || op == "extend-wire" }
+
+// decodeWire decodes a wire override the way the receiver would; nil if it
+// does not decode.
+func decodeWire(m *rhpmitm.Msg) *rhpmitm.Msg {
+	if m.Obj == nil {
+		return nil
+	}
+	obj, ok := reflect.New(reflect.TypeOf(m.Obj).Elem()).Interface().(rhp4.Object)
+	if !ok {
+		return nil
+	}
+	rd := bytes.NewReader(m.Wire)
+	cp := *m
+	cp.Wire, cp.Err, cp.Obj = nil, nil, obj
+	var err error
+	if m.Dir == rhpmitm.RenterToHost && m.Index == 0 {
+		if _, err = rhp4.ReadID(rd); err == nil {
+			err = rhp4.ReadRequest(rd, obj)
+		}
+	} else {
+		err = rhp4.ReadResponse(rd, obj)
+	}
+	if err != nil {
+		var re *rhp4.RPCError
+		if !errors.As(err, &re) {
+			return nil
+		}
+		cp.Err = re
+	}
+	cp.Raw, _ = io.ReadAll(rd)
+	return &cp
 }
 
 // applyMutation applies one mutation to a message.
